@@ -1,5 +1,5 @@
 SPECIFICATION MSpec
 CONSTANT UseCb = FALSE
 CONSTANT Points <- MlPointsQuick
-INVARIANTS MlComplete MlStatus MlSound MlNoNullDest MlIndexInRange RankLemma ItBeforeFinish
+INVARIANTS MlLedgerOK MlNoLeakAtRelease MlComplete MlStatus MlSound MlNoNullDest MlIndexInRange RankLemma ItBeforeFinish
 CHECK_DEADLOCK FALSE
